@@ -48,12 +48,12 @@ CHECKS = {
  'C03': dict(level='exploration', ref='3/C03',
    technique='bounded-exhaustive enumeration of MathML expression-tree shapes x context wrappers; generated C compiled and run, generated Python executed, against an independent reference evaluator',
    text='Every expression tree of depth <= 2 over the whole supported MathML operator set (each parent x operand position x child operator, constants, cn forms) and '
-        'depth-3 chains over the precedence-sensitive operators is placed in four contexts (computed constant; algebraic variable reading a state and the VOI; dx/dt = E '
-        'mentioning x itself; implicit NLA equation) and evaluated at up to three leaf valuations; the compiled C and the executed Python must give the reference value of '
+        'depth-3 chains over the precedence-sensitive operators is placed in five contexts (computed constant; algebraic variable reading a state and the VOI; dx/dt = E '
+        'mentioning x itself; implicit NLA equation; operands living in another component in millimetres / kilometres, i.e. with unit scaling through connections) and evaluated at up to three leaf valuations; the compiled C and the executed Python must give the reference value of '
         'every variable, rate and state and agree with each other, and NLA objective functions must vanish at the reference solution. Shapes are packed 32 per model and '
         'any anomalous pack is bisected to single shapes; the thorough tier re-runs the depth-1/2 family unpacked.',
    note='Trusted: lib/mexpr.py reference evaluator (written from the MathML/CellML specifications), gcc -O0, CPython, tolerance 1e-9. Not covered: trees deeper than 3, '
-        'non-finite or ill-conditioned valuations, units scaling between components (see C08/C06).'),
+        'non-finite or ill-conditioned valuations, units scaling other than the two prefix scalings of wrapper w5 (see C08/C06 for the general case).'),
  'C09': dict(level='model_checking', ref='3/C09',
    technique='explicit-state breadth-first search over API call histories with the real library as the transition relation, de-duplicated by a canonical state key and run to '
              'the fixpoint of reachable states, each transition judged by a reference model (set of allowed post-states) and by state invariants; plus an exhaustive '
